@@ -231,7 +231,7 @@ type walker struct {
 	d48    bool // class of finding D48 seen: a field of a primitive type with InitDefaults that the configuration does not mention
 	dyn    dynReg
 	d59    bool // class of finding D59 seen: a value held directly by an interface whose Validate() rejects
-	// class of N-C04-1 seen (walk over the pre-filled value): a struct, an array or a nil map held directly by an interface
+	// class of D60 seen (walk over the pre-filled value): a struct, an array or a nil map held directly by an interface
 	// at a position the configuration has a setting for (the code merges into the unaddressable value and panics)
 	unaddr  bool
 	unknown bool // an interface of the value holds a type that is neither a dynamic type of the case nor generic data
